@@ -237,7 +237,16 @@ class C12(Prop):
         for a in fails:
             for b in rng.sample(pool_ok, 3):
                 ops.append("BUILDSEQ %s %s" % (a, b))
+        # very long histories: the same refused message 255 .. 65537 times, then a long frame, then a short target whose last
+        # payload byte has padding bits (a counter that wraps shows only here); implementation only
+        targets = [m for m in pool_ok if m.startswith("VMsg1042(") or m.startswith("VMsg1001(") or m.startswith("VMsg1074(")][:3]
+        for n_ in (255, 256, 257, 65535, 65536, 65537):
+            for tg in targets:
+                ops.append("BUILDREP %d VEmpty %s %s" % (n_, longs[0], tg))
         return ops
+
+    def proj(self, op, res):
+        return None if op.startswith("BUILDREP ") else res      # the model does not run BUILDREP
 
     def probes(self, ops, rel, chk, ctx):
         out = []
@@ -246,6 +255,15 @@ class C12(Prop):
             for i, o in enumerate(ops):
                 if o.startswith("ENCODE "):
                     fresh[o[7:]] = res[i]
+            for i, o in enumerate(ops):
+                if o.startswith("BUILDREP "):
+                    t = o.split(" ")
+                    rs = res[i].split(" ; ")
+                    for j, m_ in enumerate(t[3:5]):
+                        if m_ in fresh and (j >= len(rs) or fresh[m_] != rs[j]):
+                            out.append((i, "after %s refused builds on one builder, build %d gave '%s...' but a fresh builder gives '%s...' (message %s...)" % (
+                                t[1], j + 1, _diffpos(rs[j] if j < len(rs) else "", fresh[m_]), fresh[m_][:24], m_[:30])))
+                            break
             for i, o in enumerate(ops):
                 if not o.startswith("BUILDSEQ "):
                     continue
